@@ -253,3 +253,78 @@ Proof.
   { apply round_le; auto with typeclass_instances. apply FLT_exp_valid. reflexivity. }
   rewrite (round_generic radix2 fexp64 ZnearestE (FR K)) in H0 by apply FR_generic. lra.
 Qed.
+
+(** * More operations: exact-relative subtraction, sqrt, opp, rounding facts *)
+From Flocq Require Import Plus_error.
+
+Lemma rnd_nonneg t : 0 <= t -> 0 <= rnd64 t.
+Proof.
+  intros H. rewrite <- (round_0 radix2 fexp64 ZnearestE).
+  apply round_le; auto with typeclass_instances. apply FLT_exp_valid. reflexivity.
+Qed.
+Lemma rnd_lt_inv t K : generic_format radix2 fexp64 K -> rnd64 t < K -> t < K.
+Proof.
+  intros G H. destruct (Rlt_or_le t K) as [L|L]; [exact L|]. exfalso.
+  assert (rnd64 K <= rnd64 t) by (apply round_le; auto with typeclass_instances; apply FLT_exp_valid; reflexivity).
+  rewrite (round_generic radix2 fexp64 ZnearestE K G) in H0. lra.
+Qed.
+Lemma rnd_gt_inv t K : generic_format radix2 fexp64 K -> K < rnd64 t -> K < t.
+Proof.
+  intros G H. destruct (Rlt_or_le K t) as [L|L]; [exact L|]. exfalso.
+  assert (rnd64 t <= rnd64 K) by (apply round_le; auto with typeclass_instances; apply FLT_exp_valid; reflexivity).
+  rewrite (round_generic radix2 fexp64 ZnearestE K G) in H0. lra.
+Qed.
+
+Lemma fmul_rnd x y : ffinite x = true -> ffinite y = true -> Rabs (FR x * FR y) <= bpow radix2 1023 ->
+  ffinite (x * y)%float = true /\ FR (x * y)%float = rnd64 (FR x * FR y).
+Proof.
+  rewrite !ffinite_equiv. unfold FR. rewrite mul_equiv. intros Fx Fy Hb.
+  pose proof (Bmult_correct prec emax ltac:(reflexivity) ltac:(reflexivity) mode_NE (Prim2B x) (Prim2B y)) as H.
+  rewrite Rlt_bool_true in H by (apply round_no_overflow; exact Hb).
+  destruct H as (E & F & _). split; [|exact E].
+  transitivity (is_finite (Prim2B x) && is_finite (Prim2B y))%bool; [exact F|]. rewrite Fx, Fy. reflexivity.
+Qed.
+
+(** float subtraction: the EXACT difference is the float result times (1 + eps), no absolute term *)
+Lemma fsub_exact_rel x y : ffinite x = true -> ffinite y = true -> Rabs (FR x - FR y) <= bpow radix2 1023 ->
+  ffinite (x - y)%float = true /\
+  exists e, Rabs e <= bpow radix2 (-53) /\ FR x - FR y = FR (x - y)%float * (1 + e).
+Proof.
+  intros Fx Fy Hb.
+  assert (Fx' := Fx). assert (Fy' := Fy). rewrite ffinite_equiv in Fx', Fy'.
+  pose proof (Bminus_correct prec emax ltac:(reflexivity) ltac:(reflexivity) mode_NE (Prim2B x) (Prim2B y) Fx' Fy') as H.
+  unfold FR in Hb. rewrite Rlt_bool_true in H by (apply round_no_overflow; exact Hb).
+  destruct H as (E & F & _). split.
+  - rewrite ffinite_equiv, sub_equiv. exact F.
+  - destruct (@FLT_plus_error_N_round_ex radix2 (3 - emax - prec) prec (eq_refl : Prec_gt_0 prec) (fun z => negb (Z.even z))
+               (FR x) (- FR y) (FR_generic x) (generic_format_opp _ _ _ (FR_generic y))) as (e & He & Ee).
+    exists e. split.
+    + eapply Rle_trans; [exact He|]. unfold u_ro. change (- prec + 1)%Z with (-52)%Z.
+      replace (-52)%Z with (1 + -53)%Z by lia. rewrite bpow_plus. simpl (bpow radix2 1). lra.
+    + unfold FR at 3. rewrite sub_equiv. etransitivity; [exact Ee|]. f_equal. symmetry. exact E.
+Qed.
+
+Lemma fopp_fin x : ffinite x = true -> ffinite (- x)%float = true /\ FR (- x)%float = - FR x.
+Proof.
+  rewrite !ffinite_equiv. unfold FR. rewrite opp_equiv. intros F. split.
+  - rewrite is_finite_Bopp. exact F.
+  - apply B2R_Bopp.
+Qed.
+
+Lemma fsqrt_err x : ffinite x = true -> 0 <= FR x ->
+  ffinite (PrimFloat.sqrt x) = true /\ 0 <= FR (PrimFloat.sqrt x) /\
+  exists d h, Rabs d <= bpow radix2 (-53) /\ Rabs h <= bpow radix2 (-1075) /\
+    FR (PrimFloat.sqrt x) = R_sqrt.sqrt (FR x) * (1 + d) + h.
+Proof.
+  rewrite !ffinite_equiv. unfold FR. rewrite sqrt_equiv. intros F Hx.
+  pose proof (Bsqrt_correct prec emax ltac:(reflexivity) ltac:(reflexivity) mode_NE (Prim2B x)) as (E & Fi & _).
+  assert (Hm : match Prim2B x with B754_zero _ | B754_finite false _ _ _ => true | _ => false end = true).
+  { destruct (Prim2B x) as [s|s| |s m e He]; try discriminate; auto.
+    destruct s; auto. exfalso. simpl in Hx. unfold F2R in Hx. simpl in Hx.
+    assert (IZR (Z.neg m) < 0) by (apply IZR_lt; lia). pose proof (bpow_gt_0 radix2 e). nra. }
+  rewrite Hm in Fi.
+  split; [exact Fi|]. split.
+  - eapply Rle_trans; [|right; symmetry; exact E]. apply rnd_nonneg. apply sqrt_pos.
+  - destruct (round_err (R_sqrt.sqrt (B2R (Prim2B x)))) as (d & h & Hd & Hh & Er).
+    exists d, h. repeat split; auto. etransitivity; [exact E|exact Er].
+Qed.
